@@ -83,6 +83,8 @@ def specs(draw, tier):
             cand["interface_width"] = 0.0 if draw(st.integers(0, 3)) == 0 else spec["truth"]["interface_width"]
     spec["candidate"] = cand
     spec["opts"] = {"levels": draw(st.sampled_from(["fixed", "fixed", "auto", "adjust", "auto+adjust"])), "tolerance": draw(st.sampled_from([None, None, 1e-4, 1e-10]))}
+    # documented pass-through of solver options; a small evaluation budget makes the fit stop before it has converged
+    spec["opts"]["max_nfev"] = draw(st.sampled_from([None, None, None, None, 1, 2, 3, 5, 8]))
     return spec
 
 
@@ -199,6 +201,9 @@ class C04(Property):
             kw["adjust_values"] = True
         if spec["opts"]["tolerance"] is not None:
             kw["tolerance"] = spec["opts"]["tolerance"]
+        if spec["opts"].get("max_nfev") is not None:
+            kw["least_squares_params"] = {"max_nfev": spec["opts"]["max_nfev"]}
+            ctx.cls("evaluation-budget")
         cand0 = cand.copy()
         ctx.cls(fam, spec["candidate"]["cls"], f"image:{kind}", f"levels:{mode}")
         # knife-edge rule for sharp candidates: the solver moves a start value that sits on a bound strictly inside (1e-10
